@@ -103,7 +103,7 @@ def main(tier):
         if r.random() < 0.5:
             o["sourcepos"] = not o.get("sourcepos", False)
         return o
-    recs = htmlfam.tie_html(c, 1200 if quick else 20000, 300 if quick else 4000, opts_fn=tie_opts)
+    recs = htmlfam.tie_html(c, 2500 if quick else 20000, 400 if quick else 4000, opts_fn=tie_opts)
     if recs is None:
         c.finish(rule="build failed")
     drv, vh = vlib.DRIVER, vlib.VH["debug"]
@@ -127,7 +127,7 @@ def main(tier):
 
     # ------------------------------------------------------------------ synthetic trees (used for the XML tie and for the same-tree search)
     synth = []
-    for _ in range(250 if quick else 4000):
+    for _ in range(600 if quick else 4000):
         synth.append(("random", treegen.random_tree(rng, maxdepth=rng.choice([3, 5, 6]), allow_bad=(rng.random() < 0.1))))
     sysl = list(treegen.systematic(rng))
     rng.shuffle(sysl)
@@ -145,7 +145,7 @@ def main(tier):
     sopts = [docgen.gen_opts(rng, exclude=("sourcepos", "experimental_minimize_commonmark")) for _ in synth]
 
     # ------------------------------------------------------------------ the search, end to end from Markdown
-    n = 2500 if quick else 40000
+    n = 6000 if quick else 40000
     cases = []
     for _ in range(n):
         d = sp_docs(rng)
@@ -221,7 +221,7 @@ def main(tier):
     # ------------------------------------------------------------------ the same TREE rendered twice
     trees = [("parser", a.tree, cases[i][1]) for i, a in enumerate(off) if a.status == "ok"]
     rng.shuffle(trees)
-    trees = trees[: 600 if quick else 8000]
+    trees = trees[: 1500 if quick else 8000]
     trees += [(src, t, o) for (src, t), o in zip(synth, sopts)]
     st2 = {"trees": len(trees), "html": 0, "xml": 0, "cm": 0, "coinciding_panics": 0, "excluded_own_attribute": 0, "html_lexer": 0,
            "html_pattern_fallback": 0, "html_differs": 0, "unbuildable": 0}
